@@ -328,8 +328,11 @@ Fixpoint select {A} (flags : list bool) (l : list A) : list A :=
 Inductive rx_event : Type :=
 | EvOffer (keys : list bytes)
 | EvGoroutineRuns (n : nat)             (* the n-th pending receive goroutine reaches cacheTransferringKeys *)
-| EvTransferEnds (n : nat).             (* the n-th receive goroutine returns: deferred deleteTransferringContentKeys(contentKeys),
+| EvTransferEnds (n : nat)              (* the n-th receive goroutine returns: deferred deleteTransferringContentKeys(contentKeys),
                                            contentKeys = the keys THAT offer accepted *)
+| EvOfferV0 (keys : list bytes).        (* an OFFER from a version-0 peer: filterContentKeysV0 does not consult the marks
+                                           (the property says "not, in version 1, already being received"), but its receive
+                                           goroutine sets and clears them like any other *)
 
 Record rx_state : Type := {
   rx_marked : list bytes;               (* transferringKeyCache *)
@@ -361,5 +364,9 @@ Definition rx_step (sync_mark : bool) (s : rx_state) (e : rx_event) : rx_state :
       | Some ks => {| rx_marked := unmark ks (rx_marked s); rx_pending := rx_pending s; rx_accepted := rx_accepted s |}
       | None => s
       end
+  | EvOfferV0 keys =>
+      {| rx_marked := if sync_mark then keys ++ rx_marked s else rx_marked s;
+         rx_pending := rx_pending s ++ [keys];
+         rx_accepted := keys :: rx_accepted s |}
   end.
 Definition rx_run (sync_mark : bool) (evs : list rx_event) : rx_state := fold_left (rx_step sync_mark) evs rx_init.
